@@ -922,7 +922,8 @@ pub fn match_expression(
 ) -> MResult<Value> {
     let source = expression(&match_expr.source, env, p)?;
     let detached_source = match &source {
-        Value::MutableReference(reference) => reference.borrow().clone(),
+        // the arms see (and may return) a copy, not the variable's own cells
+        Value::MutableReference(reference) => reference.borrow().deep_clone(),
         _ => source.clone(),
     };
     let mut base_env = env.cloned().unwrap_or_default();
